@@ -35,6 +35,7 @@ def handle (line : String) : String :=
       let es := effects level outs
       s!"{showResult r} stored={joinCsv (es.map fun e => if e.stored then "1" else "0")} hh={joinCsv (es.map fun e => toString e.hhCalls)} hhok={joinCsv (es.map fun e => if e.hhAccepted then "1" else "0")}"
     | _, _, _ => "bad-op"
+  | ["e2equeue", _] => "queued-behind"        -- judged on the implementation's side
   | ["e2elate", _] => "late-answer-ignored"   -- judged on the implementation's side
   | "e2e" :: _ :: lv :: rf :: loc :: _ =>
     -- a write through real nodes to a shard its `rf` owners have not opened yet; `loc` = 1:
